@@ -112,7 +112,10 @@ class Obs:
                 want=w,
             )
             return False
-        d = np.abs(np.where(nan_g, 0, g) - np.where(nan_w, 0, w))
+        same_inf = np.isinf(g) & np.isinf(w) & (np.sign(np.real(g)) == np.sign(np.real(w)))
+        skip = nan_g | same_inf
+        with np.errstate(invalid="ignore"):
+            d = np.abs(np.where(skip, 0, g) - np.where(skip, 0, w))
         err = float(d.max()) / scale
         if not np.isfinite(err):
             self.fail(name, msg or "non-finite difference", tags, got=g, want=w)
